@@ -98,3 +98,49 @@ Lemma santiago_like_window : forall u, window santiago_like 14400 u.
 Proof.
   intros u. exists 1662868800, (-14400), (-10800). split; [intros x _; reflexivity|lia].
 Qed.
+
+(* ---------- transition tables: the decidable check implies the zone hypothesis ---------- *)
+Lemma off_list_before B prev l cur x : chain B prev l = true -> x <= prev + 2 * B -> off_list cur l x = cur.
+Proof.
+  destruct l as [|[at_ o] r]; [reflexivity|]. cbn [chain off_list]. intros H Hx.
+  apply andb_prop in H as [H _]. apply andb_prop in H as [H _]. apply andb_prop in H as [H _].
+  destruct (x <? at_) eqn:E; [reflexivity|lia].
+Qed.
+
+Definition tail_ok (B : Z) (l : list (Z * Z)) : Prop :=
+  match l with [] => True | (at_, o) :: r => - B <= o <= B /\ chain B at_ r = true end.
+
+Lemma chain_tail B at_ r : chain B at_ r = true -> tail_ok B r.
+Proof.
+  destruct r as [|[at2 o2] r2]; [exact (fun _ => I)|]. cbn [chain tail_ok]. intros H.
+  apply andb_prop in H as [H C]. apply andb_prop in H as [H O2]. apply andb_prop in H as [_ O1]. split; [lia|exact C].
+Qed.
+
+Lemma window_list B l : 0 <= B -> forall cur u, - B <= cur <= B -> tail_ok B l ->
+  exists T a b, (forall x, u - B <= x <= u + B -> off_list cur l x = if x <? T then a else b) /\ - B <= a <= B /\ - B <= b <= B.
+Proof.
+  intros HB. induction l as [|[at_ o] r IH]; intros cur u Hc Ht.
+  - exists 0, cur, cur. split; [intros x _; cbn; now destruct (x <? 0)|lia].
+  - cbn [tail_ok] in Ht. destruct Ht as [Ho Hch].
+    destruct (Z_lt_le_dec (u + B) at_) as [Hlt|Hge].
+    + (* the whole window lies before this transition *)
+      exists at_, cur, cur. split; [|lia]. intros x Hx. cbn [off_list].
+      destruct (x <? at_) eqn:E; [reflexivity|lia].
+    + destruct (Z_le_gt_dec at_ (u - B)) as [Hle|Hgt].
+      * (* the whole window lies after it *)
+        destruct (IH o u Ho (chain_tail B at_ r Hch)) as (T & a & b & H & Ha & Hb).
+        exists T, a, b. split; [|lia]. intros x Hx. cbn [off_list].
+        destruct (x <? at_) eqn:E; [lia|]. now apply H.
+      * (* the transition is inside the window: the next one is more than 2B later, i.e. beyond it *)
+        exists at_, cur, o. split; [|lia]. intros x Hx. cbn [off_list].
+        destruct (x <? at_) eqn:E; [reflexivity|]. apply (off_list_before B at_ r o x Hch). lia.
+Qed.
+
+Theorem table_window : forall B z, table_ok B z = true -> forall u, window (off_table z) B u.
+Proof.
+  intros B [init l] H u. unfold table_ok in H. cbn [fst snd] in H.
+  apply andb_prop in H as [H Hl]. apply andb_prop in H as [H H3]. apply andb_prop in H as [H1 H2].
+  unfold window, off_table. cbn [fst snd]. apply window_list; [lia|lia|].
+  destruct l as [|[at_ o] r]; [exact I|]. cbn [tail_ok].
+  apply andb_prop in Hl as [Hl C]. apply andb_prop in Hl as [O1 O2]. split; [lia|exact C].
+Qed.
